@@ -1,6 +1,11 @@
 HOOK_COMMITS = []
 NOT_YET = {}
 TEXT = {
+ 'C01': dict(
+  text='Machine-checked proof (Coq) that, for EVERY claims-set of either profile (any field values, nil containers and nil component elements included), the operational model of ValidateClaims -- the getter walk in the order read from /repo, FilterError, the regular-expression matcher -- returns success exactly when the declarative predicate [conformant] transcribed from the property text holds, never panics, depends on nothing the rules do not mention, and that after success every mandatory getter yields a conformant value and every optional getter a conformant value or the missing-optional error; the two regular expressions are proved to denote EAN-13 / EAN-13+5. Constants, ranges, regex ASTs, accessor regex sets and both validation orders are regenerated from /repo on every run and proved equal to the specified tables; the real Validate() and all ten getters are compared with the model on ~20 000 (quick) / ~1 000 000 (thorough) directly constructed claims-sets.',
+  note='Trusted: Coq kernel, srcfacts, extraction + glue (kernel-evaluated sample cross-check), Go harness. The getter control flow is hand-modelled (theories/Claims.v) and tied by the correspondence; eat.Profile / eat.Nonce are modelled. No axioms.',
+  technique='Coq proof of biconditional (operational validator <-> declarative predicate) + generated-table tie + differential correspondence',
+  design_ref='DESIGN.md 6/C01'),
  'C14': dict(
   text='Machine-checked proof (Coq) that the lifecycle mapping of the model, instantiated with the specified range table, returns for EVERY value the state of its 256-value page and the invalid state otherwise, that validator/setters/getters of both profiles accept iff that state is not invalid, and that state names are the specified strings; the range table, state numbering and names are regenerated from /repo by srcfacts on every run and proved equal to the specified ones (ties/TieConsts.v); in addition the real library is run on all 65 536 values (fresh and preloaded claims-sets) and compared with the model, so the tie is exhaustive for this property.',
   note='Trusted: Coq kernel, srcfacts translator, extraction (ExtrOcamlBasic) + OCaml glue (cross-checked by a kernel-evaluated sample), Go harness. No axioms.',
